@@ -608,6 +608,22 @@ func genSched(seed uint64, prop, tier, mode string) *Plan {
 		return out
 	}()
 	stormN := g.Range(2, 6)
+	// cold listings: in most listing storms every client issues the *same* sequence of listing
+	// operations on the same shared registries (which nobody has listed before), so that whatever
+	// a registry builds on first use is built by all clients at once
+	var coldK []string
+	var coldReg []int
+	if storm == "listings" && g.Chance(0.75) {
+		for k := 0; k < stormN; k++ {
+			coldK = append(coldK, pick(g, []string{"sources", "sources", "names", "writejson", "observe", "defaultcfg"}))
+			r := 0
+			if shared > 1 && g.Chance(0.8) {
+				r = 1 + g.Intn(shared-1)
+			}
+			coldReg = append(coldReg, r)
+		}
+		p.Knobs["storm_cold"] = true
+	}
 
 	// ---- clients: own objects, ops over shared registries (+ own filtered ones)
 	for c := 0; c < K; c++ {
@@ -677,6 +693,10 @@ func genSched(seed uint64, prop, tier, mode string) *Plan {
 					o.ExcludeNames = list
 				}
 			default:
+				if coldK != nil && storm == "listings" {
+					ops = append(ops, Op{K: coldK[k], Reg: coldReg[k], Note: "storm"})
+					continue
+				}
 				ops = append(ops, Op{K: pick(g, []string{"names", "sources", "writejson", "observe", "defaultcfg"}), Reg: 0, Note: "storm"})
 				continue
 			}
@@ -1101,6 +1121,7 @@ func runSched(p *Plan, keepLog bool, mode string) *RunResult {
 	}
 	clients := make([]*clientState, K)
 	var wg sync.WaitGroup
+	startGate := make(chan struct{}) // free-running clients leave the gate together
 	for c := 0; c < K; c++ {
 		cs := &clientState{id: c, ops: p.Clients[c], objs: map[int]*Parsed{}}
 		clients[c] = cs
@@ -1117,6 +1138,8 @@ func runSched(p *Plan, keepLog bool, mode string) *RunResult {
 			defer wg.Done()
 			if !free {
 				<-s.wake[c]
+			} else {
+				<-startGate
 			}
 			for i := range cs.ops {
 				if !free {
@@ -1128,6 +1151,7 @@ func runSched(p *Plan, keepLog bool, mode string) *RunResult {
 			s.Finish(c)
 		}(c, cs, view)
 	}
+	close(startGate)
 	start := time.Now()
 	if !free && strings.HasPrefix(mode, "fg") {
 		if !fineGrainBuild {
